@@ -10,16 +10,18 @@ from common import Ctx, driver_json
 import core_lib as cl
 
 PROPERTY = "C18"
-LEAN_MODULES = ["Proofs.C18"]
+LEAN_MODULES = ["Proofs.C18", "Proofs.C18.Rerun", "Proofs.C18.Periods"]
 DRIVERS = ["driver_core"]
 RULE = ("random bar grids (start minute 0..1300 of the day, interval 1/2/3/5/7/10/15/30/60 min, 3..90 bars) x 1..4 triggers per run drawn "
         "from every class of trigger.py with parameters placed relative to the grid (on a bar, between bars, before the first / after the "
         "last bar, with seconds, duplicated, reversed or empty ranges, periods dividing / not dividing the interval, coinciding periods, "
-        "positive / negative / sub-minute delays, immediate flag, malformed periods); bucket = (class, parameter class, interval class, "
+        "positive / negative / sub-minute delays, immediate flag, malformed periods); in 60 % of the cases the same strategy object — with the "
+        "same trigger objects, some installed by the caller before the run, the others by initialize() — is run a second time with a fresh "
+        "Actuator on the same grid or on one with another start time / length, and judged against that grid; bucket = (class, parameter class, interval class, "
         "fired-count class, retired or not, outcome)")
 TRUSTED = ["bar times are taken from the implementation's own before_bar calls (the bar index itself is C05's subject)",
            "PriceTrigger / CustomizedTrigger are not time-based and are not part of the property"]
-ASSUMPTIONS = ["hooks do not mutate strategy.triggers during a run; trigger objects are fresh per run (no reuse of _next_match across runs)"]
+ASSUMPTIONS = ["hooks do not mutate strategy.triggers during a run"]
 
 INTERVALS = (1, 1, 1, 2, 3, 5, 5, 7, 10, 15, 30, 60)
 
@@ -123,7 +125,16 @@ def gen_case(rng):
         istr = rng.choice(("1h", "h"))
     if interval == 1 and rng.random() < 0.1:
         istr = "min"
-    return {"start": start, "n": n_raw, "interval": interval, "istr": istr, "specs": specs}
+    case = {"start": start, "n": n_raw, "interval": interval, "istr": istr, "specs": specs}
+    # the same strategy object, its trigger objects included, is run a second time with a fresh Actuator: on the same grid or on one that starts
+    # at another time / has another length; `split`: the first `split` triggers are installed by the caller before the run, the rest — built
+    # once as well — by initialize() on every run
+    if rng.random() < 0.6:
+        r = rng.random()
+        case["rerun"] = ({"start": start, "n": n_raw} if r < 0.4 else
+                         {"start": max(0, start + 60 * rng.randint(-40, 40)), "n": max(1, n_raw + rng.randint(-n_raw // 2, 20))})
+        case["split"] = rng.randint(0, len(specs))
+    return case
 
 
 # ------------------------------------------------------------------------------------------ implementation run
@@ -164,52 +175,74 @@ def culprit(exc):
 
 
 def run_impl(case):
+    """returns the observations of the run and, if the case asks for it, of a second run of the same strategy object (None otherwise)"""
     cl.setup()
     from demeter import Strategy
     from demeter._typing import DemeterError
-    times = [case["start"] + 60 * i for i in range(case["n"])]
-    a, ms, rec = cl.build([("m", times, False)], times, case["istr"])
-    obs = {"make": [], "fires": [], "bars": [], "live": [], "err": None, "where": None, "calls_ok": True}
+
+    def fresh_obs():
+        return {"make": [], "fires": [], "bars": [], "live": [], "err": None, "where": None, "calls_ok": True}
+    cur = {"obs": fresh_obs()}
     trigs = []
 
     def mk_do(i, kw_expected):
         def do(snapshot, **kw):
+            obs = cur["obs"]
             if cl.kw_str(kw) != kw_expected:
                 obs["calls_ok"] = False
             obs["fires"].append([cl.sec(snapshot.timestamp), i, cl.kw_str(kw)])
         return do
 
+    made = []
     for sp in case["specs"]:
         i = len(trigs)
         try:
             trigs.append(construct(sp, mk_do(i, sp["kw"])))
-            obs["make"].append(None)
+            made.append(None)
         except DemeterError:
-            obs["make"].append("DemeterError")
+            made.append("DemeterError")
     ident = {id(t): i for i, t in enumerate(trigs)}
+    # position among the constructed triggers of the first one that initialize() installs
+    split = case.get("split", 0)
+    n_pre = sum(1 for m in made[:split] if m is None)
 
     class S(Strategy):
         def initialize(self):
-            self.triggers.extend(trigs)
+            self.triggers.extend(trigs[n_pre:])
 
         def before_bar(self, snapshot):
-            obs["bars"].append(cl.sec(snapshot.timestamp))
+            cur["obs"]["bars"].append(cl.sec(snapshot.timestamp))
 
         def on_bar(self, snapshot):
-            obs["live"].append(sorted(ident[id(t)] for t in self.triggers))
+            cur["obs"]["live"].append(sorted(ident[id(t)] for t in self.triggers))
 
         def finalize(self):
             # the triggers still installed when the loop has ended (Actuator.run hands the list back as it found it afterwards)
-            obs["left"] = [ident[id(t)] for t in self.triggers]
+            cur["obs"]["left"] = [ident[id(t)] for t in self.triggers]
 
-    a.strategy = S()
-    try:
-        a.run(print_result=False)
-    except Exception as e:  # noqa: BLE001
-        obs["err"] = type(e).__name__
-        obs["where"] = culprit(e)
-    obs.setdefault("left", None)
-    return obs
+    strat = S()
+    strat.triggers.extend(trigs[:n_pre])
+
+    def one(start, n):
+        obs = cur["obs"] = fresh_obs()
+        obs["make"] = list(made)
+        times = [start + 60 * i for i in range(n)]
+        a, ms, rec = cl.build([("m", times, False)], times, case["istr"])
+        a.strategy = strat
+        try:
+            a.run(print_result=False)
+        except Exception as e:  # noqa: BLE001
+            obs["err"] = type(e).__name__
+            obs["where"] = culprit(e)
+        obs.setdefault("left", None)
+        obs["installed_after"] = [ident[id(t)] for t in strat.triggers]
+        return obs
+
+    first = one(case["start"], case["n"])
+    second = None
+    if case.get("rerun") and first["err"] is None:
+        second = one(case["rerun"]["start"], case["rerun"]["n"])
+    return first, second
 
 
 # ------------------------------------------------------------------------------------------ the property, stated independently
@@ -295,8 +328,23 @@ def param_class(sp, step):
 
 
 def check_case(ctx: Ctx, case, reqs=None):
-    """run the implementation on the case, evaluate the property on what it did; queue the model request"""
-    obs = run_impl(case)
+    """run the implementation on the case (and, if asked for, the same strategy object a second time), evaluate the property on what it did;
+    queue the model requests"""
+    first, second = run_impl(case)
+    judge(ctx, case, first, reqs, False)
+    if second is not None:
+        judge(ctx, case, second, reqs, True)
+        n_pre = sum(1 for m in first["make"][:case.get("split", 0)] if m is None)
+        if first["installed_after"] != list(range(n_pre)) or second["installed_after"] != list(range(n_pre)):
+            ctx.violate("Actuator.run:trigger-list-not-handed-back",
+                        f"strategy.triggers held the caller's {n_pre} triggers before the run, {first['installed_after']} after it and "
+                        f"{second['installed_after']} after the second run", dict(case))
+    return first
+
+
+def judge(ctx: Ctx, case, obs, reqs, rerun):
+    """the property on one run.  In a second run of the same trigger objects every specification denotes what it denotes for a fresh object
+    on that run's own grid (the periods count from that run's first bar)"""
     specs = case["specs"]
     step = 60 * case["interval"]
     rep = dict(case)
@@ -335,7 +383,9 @@ def check_case(ctx: Ctx, case, reqs=None):
                     break
             if got != want:
                 pc = param_class(sp, step)
-                if sp["k"] in ("period", "periods"):
+                if rerun:
+                    cause = "second-run-of-the-same-object"
+                elif sp["k"] in ("period", "periods"):
                     cause = "off-grid-due-time" if ("offgrid" in pc or "pend-offgrid" in pc or "pend-neg" in pc) else "coinciding-periods"
                 elif retired_at is not None and any(t > retired_at for t in want):
                     cause = "retired-early"
@@ -344,19 +394,20 @@ def check_case(ctx: Ctx, case, reqs=None):
                 missing = [t for t in want if t not in got]
                 extra = [t for t in got if t not in want]
                 ctx.violate(f"{cls}.when:{cause}",
-                            f"{cls} {json.dumps({k: v for k, v in sp.items() if k != 'kw'})} on the grid start={bars[0]}s step={step}s n={len(bars)}: "
+                            f"{'the same ' + cls + ' object in a second run (installed by ' + ('the caller' if i < sum(1 for m in obs['make'][:case.get('split', 0)] if m is None) else 'initialize()') + ')' if rerun else cls} "
+                        f"{json.dumps({k: v for k, v in sp.items() if k != 'kw'})} on the grid start={bars[0]}s step={step}s n={len(bars)}: "
                             f"fired {len(got)} times, denoted {len(want)}; missing {missing[:6]} extra {extra[:6]}", rep)
             if retired_at is not None and not never_again(sp, t0, retired_at, bars, step):
                 ctx.violate(f"{cls}.is_out_date:retired-while-it-can-fire", f"{cls} retired at {retired_at}s although a later time is denoted", rep)
             fc = "0" if not want else "1" if len(want) == 1 else "some" if len(want) < len(bars) else "all"
-            ctx.case(f"{sp['k']}:{param_class(sp, step)}:i{case['interval']}:f{fc}:{'retired' if retired_at is not None else 'kept'}",
+            ctx.case(f"{sp['k']}:{param_class(sp, step)}:i{case['interval']}:f{fc}:{'retired' if retired_at is not None else 'kept'}" +
+                     ((":rerun-same-grid" if case["rerun"]["start"] == case["start"] and case["rerun"]["n"] == case["n"] else ":rerun-other-grid") if rerun else ""),
                      {"spec": sp, "interval": case["interval"], "bars": len(bars), "fired": len(got)})
     if reqs is not None and bars:
         reqs.append((rep, obs, {"fn": "trig_run", "bars": [str(b) for b in bars],
                                 "specs": [{k: ([[str(a), str(b)] for a, b in v] if k == "rs" else [str(x) for x in v] if isinstance(v, list)
                                                else str(v) if isinstance(v, int) and not isinstance(v, bool) else v)
                                            for k, v in sp.items()} for sp in specs]}))
-    return obs
 
 
 def compare(ctx: Ctx, rep, obs, ans, specs):
